@@ -5,6 +5,7 @@ import (
 	"reflect"
 	"unsafe"
 
+	"github.com/goccy/go-json/internal/errors"
 	"github.com/goccy/go-json/internal/runtime"
 )
 
@@ -41,8 +42,27 @@ func (d *wrappedStringDecoder) DecodeStream(s *Stream, depth int64, p unsafe.Poi
 	}
 	b := make([]byte, len(bytes)+1)
 	copy(b, bytes)
-	if _, err := d.dec.Decode(&RuntimeContext{Buf: b}, 0, depth, p); err != nil {
+	c, err := d.dec.Decode(&RuntimeContext{Buf: b, Option: s.Option}, 0, depth, p)
+	if err != nil {
 		return err
+	}
+	return d.validateWhole(b, c, s.totalOffset())
+}
+
+// validateWhole checks that the value decoded from the text of a string (a ,string member or a
+// map key) is the whole text: "1.5", "1x", " 1" and "1 " are not integers.
+func (d *wrappedStringDecoder) validateWhole(b []byte, end, offset int64) error {
+	if len(b) > 1 {
+		switch b[0] {
+		case ' ', '\t', '\r', '\n':
+			return errors.ErrInvalidCharacter(b[0], "value in string", offset)
+		}
+	}
+	if end != int64(len(b))-1 {
+		if end < 0 || end >= int64(len(b)) {
+			return errors.ErrUnexpectedEndOfJSON("value in string", offset)
+		}
+		return errors.ErrInvalidCharacter(b[end], "value in string", offset)
 	}
 	return nil
 }
@@ -61,10 +81,14 @@ func (d *wrappedStringDecoder) Decode(ctx *RuntimeContext, cursor, depth int64, 
 	bytes = append(bytes, nul)
 	oldBuf := ctx.Buf
 	ctx.Buf = bytes
-	if _, err := d.dec.Decode(ctx, 0, depth, p); err != nil {
+	end, err := d.dec.Decode(ctx, 0, depth, p)
+	ctx.Buf = oldBuf
+	if err != nil {
 		return 0, err
 	}
-	ctx.Buf = oldBuf
+	if err := d.validateWhole(bytes, end, c); err != nil {
+		return 0, err
+	}
 	return c, nil
 }
 
